@@ -58,7 +58,7 @@ def in_allowed_grammar(node, names=PURE_NAMES, extra_names=()):
     return False
 
 
-STRS = ["'abc'", "'True'", "'false'", "'true'", "'False'", "'truely'", "' and '", "'a<b'", "''", "'it\\'s'", "\"q\\\"q\"", "'probe('", "'1'", "'x y'", "'true or false'", "'é'", "'Not'"]
+STRS = ["'abc'", "'True'", "'false'", "'true'", "'False'", "'truely'", "'a  b'", "'x\ty'", "'  '", "' lead'", "'trail '", "'t	t'", "'n\\n'", "'a   b  c'", "' and '", "'a<b'", "''", "'it\\'s'", "\"q\\\"q\"", "'probe('", "'1'", "'x y'", "'true or false'", "'é'", "'Not'"]
 INTS = ["0", "1", "2", "3", "7", "10", "12", "100", "99999", "5", "4"]
 FLOATS = ["0.5", "2.0", "1.5", "0.1", "1e3", "3.25", "0.0"]
 FUN1 = ["abs", "sqrt", "sin", "cos", "tan", "atan", "sinh", "cosh", "tanh", "exp", "ceil", "floor", "trunc", "degrees", "radians",
